@@ -95,6 +95,8 @@ Inductive local :=
 | LFPH (k : Z) (c : fk) (b : buf) (i : nat) (prev curr next : nat) (* before helpDelete CAS *)
 (* Insert4 *)
 | LInsPub (k : Z) (x xl : nat) (b : buf)                     (* before the level-0 publish CAS *)
+| LInsSucc (k : Z) (x xl : nat) (b : buf) (i : nat)          (* before succs[i].getNext(i): a marked successor
+                                                                 is unlinked by a new search first *)
 | LInsOwn (k : Z) (x xl : nat) (b : buf) (i : nat)           (* before x.getNext(i) and, if needed, the
                                                                  CAS of the node's own pointer (one segment:
                                                                  no yield point fits inside the Go condition) *)
@@ -149,7 +151,7 @@ Definition fp_done (sh : shared) (p : pers) (k : Z) (c : fk) (b : buf) (found : 
       (* set all next links of the private node, then go and publish it *)
       let x_nd := mkNd k xl (map (fun i => (succ_at b i, false)) (seq 0 (S xl))) in
       (mkSh (set_nth x x_nd (heap sh)) (sl_level sh) (sts sh), p, inl (LInsPub k x xl b))
-  | KInsertFix x xl i => (sh, p, inl (LInsOwn k x xl b i))
+  | KInsertFix x xl i => (sh, p, inl (LInsSucc k x xl b i))
   | KInsertDone x xl => insert_finish sh p k x xl
   | KDelete => if found then softdelete_start sh p k (succ_at b 0) else (sh, p, inr (RBool false))
   | KUnlink => (sh, p, inr (RBool true))
@@ -222,9 +224,13 @@ Definition step (tid : nat) (l : local) (p : pers) (sh : shared) : R :=
     if ok then
       match xl with
       | O => insert_finish sh1 p k x xl
-      | S _ => (sh1, p, inl (LInsOwn k x xl b 1))
+      | S _ => (sh1, p, inl (LInsSucc k x xl b 1))
       end
     else (with_sts sh1 (st_add_insc (sts sh1)), p, inl (LFP0 k (KInsert x xl) b))
+  | LInsSucc k x xl b i =>
+    (* repaired Insert4: never link x in front of a marked successor (an equal item deleted meanwhile) *)
+    if snd (getnext sh (succ_at b i) i) then (sh, p, inl (LFP0 k (KInsertFix x xl i) b))
+    else (sh, p, inl (LInsOwn k x xl b i))
   | LInsOwn k x xl b i =>
     let '(nn, deleted) := getnext sh x i in
     if deleted then insert_finish sh p k x xl
@@ -239,7 +245,7 @@ Definition step (tid : nat) (l : local) (p : pers) (sh : shared) : R :=
   | LInsCheck k x xl b i =>
     (* repaired Insert4: a delete may have marked x and finished its unlink pass before the link *)
     if snd (getnext sh x i) then (sh, p, inl (LFP0 k (KInsertDone x xl) b))
-    else if (i <? xl)%nat then (sh, p, inl (LInsOwn k x xl b (S i))) else insert_finish sh p k x xl
+    else if (i <? xl)%nat then (sh, p, inl (LInsSucc k x xl b (S i))) else insert_finish sh p k x xl
   | LSdLoad k n i marked =>
     let '(next, deleted) := getnext sh n i in
     if deleted then
